@@ -730,7 +730,13 @@ def rule_record_columns(ctx, prog, rule="C19-R12"):
                     c.args):
                 continue
             names = kwarg(c, "names")
+            if isinstance(names, ast.Name):
+                from .c08 import _resolve_local as _rl12
+                names = _rl12(fi.node, names)
             rows = c.args[0]
+            if isinstance(rows, ast.Name):
+                from .c08 import _resolve_local as _rl12
+                rows = _rl12(fi.node, rows)
             if not (isinstance(names, (ast.List, ast.Tuple)) and
                     isinstance(rows, (ast.ListComp, ast.GeneratorExp)) and
                     isinstance(rows.elt, ast.Tuple)):
